@@ -901,6 +901,15 @@ void VariableManager::process_variable_declaration(const ASTNode *node) {
         }
     }
 
+    // The value of node->init_expr once the general initialisation code
+    // below has evaluated it. The pointer-specific code and the string
+    // fix-up further down need the value of the same expression again; they
+    // reuse this result instead of evaluating the initialiser a second time
+    // (which repeated its side effects, e.g. `void* p = malloc(f());`
+    // allocated twice and leaked the first block).
+    bool init_value_known = false;
+    TypedValue init_value(static_cast<int64_t>(0), InferredType());
+
     // 初期化式がある場合
     if (node->init_expr) {
         // v0.10.0: ラムダ式の処理（最優先で処理）
@@ -1820,6 +1829,8 @@ void VariableManager::process_variable_declaration(const ASTNode *node) {
                     TypedValue typed_result =
                         interpreter_->expression_evaluator_
                             ->evaluate_typed_expression(node->init_expr.get());
+                    init_value = typed_result;
+                    init_value_known = true;
 
                     if (typed_result.is_string()) {
                         var.str_value = typed_result.string_value;
@@ -1973,6 +1984,8 @@ void VariableManager::process_variable_declaration(const ASTNode *node) {
                 TypedValue typed_result =
                     interpreter_->expression_evaluator_
                         ->evaluate_typed_expression(node->init_expr.get());
+                init_value = typed_result;
+                init_value_known = true;
 
                 if (typed_result.is_string()) {
                     var.type = TYPE_STRING;
@@ -2287,9 +2300,12 @@ void VariableManager::process_variable_declaration(const ASTNode *node) {
                 init_node->node_type == ASTNodeType::AST_LAMBDA_EXPR) {
                 try {
                     // evaluate_typed_expressionを使って型情報も取得
+                    // (already evaluated above -> reuse, do not call again)
                     TypedValue typed_value =
-                        interpreter_->expression_evaluator_
-                            ->evaluate_typed_expression(init_node);
+                        (init_value_known && init_node == node->init_expr.get())
+                            ? init_value
+                            : interpreter_->expression_evaluator_
+                                  ->evaluate_typed_expression(init_node);
 
                     // TypedValueに関数ポインタ情報がある場合
                     if (typed_value.is_function_pointer) {
@@ -2332,9 +2348,12 @@ void VariableManager::process_variable_declaration(const ASTNode *node) {
                 }
             } else {
                 // 関数呼び出し以外の初期化式（変数、演算子など）
+                // (already evaluated above -> reuse, do not evaluate again)
                 TypedValue typed_value =
-                    interpreter_->expression_evaluator_
-                        ->evaluate_typed_expression(init_node);
+                    (init_value_known && init_node == node->init_expr.get())
+                        ? init_value
+                        : interpreter_->expression_evaluator_
+                              ->evaluate_typed_expression(init_node);
 
                 // new式の場合、生メモリポインタフラグを設定
                 if (var.is_pointer && init_node &&
@@ -2414,8 +2433,10 @@ void VariableManager::process_variable_declaration(const ASTNode *node) {
         ASTNode *init_node =
             node->init_expr ? node->init_expr.get() : node->right.get();
         TypedValue typed_value =
-            interpreter_->expression_evaluator_->evaluate_typed_expression(
-                init_node);
+            (init_value_known && init_node == node->init_expr.get())
+                ? init_value
+                : interpreter_->expression_evaluator_
+                      ->evaluate_typed_expression(init_node);
         if (typed_value.value != 0 && typed_value.string_value.empty()) {
             var.value = typed_value.value;
             var.is_assigned = true;
